@@ -193,7 +193,7 @@ func runCase(c c11Case) (problem string, stats map[string]int) {
 					fail(h + "\n" + stacks())
 					return
 				}
-				if p := drv.ClosedSnapshot(items); p != "" {
+				if p := drv.ClosedSnapshot(items, c.Flushers == 0); p != "" {
 					fail(p)
 					return
 				}
